@@ -53,8 +53,31 @@ func mkEnv(d []byte, c int) *env {
 	return &env{d: d, c: c, ctx: parsley.NewContext(fs, rd), base: int(rd.Pos(0))}
 }
 
+// parse applies p at the offset — twice: a parser must not disturb the input
+// it reads, so the second application on the same file and reader has to give
+// the same node (span, value) or the same error.
 func (e *env) parse(p parsley.Parser) (parsley.Node, parsley.Error) {
 	n, _, err := p.Parse(e.ctx, data.EmptyIntMap, parsley.Pos(e.base+e.c))
+	n2, _, err2 := p.Parse(e.ctx, data.EmptyIntMap, parsley.Pos(e.base+e.c))
+	if (n == nil) != (n2 == nil) || (err == nil) != (err2 == nil) {
+		rt.Fail("reapplication/outcome-differs", "the second application at the same offset behaves differently")
+		return n, err
+	}
+	if n != nil {
+		if n.Pos() != n2.Pos() || n.ReaderPos() != n2.ReaderPos() || n.Token() != n2.Token() {
+			rt.Fail("reapplication/node-differs", "")
+			return n, err
+		}
+		l1, ok1 := n.(parsley.LiteralNode)
+		l2, ok2 := n2.(parsley.LiteralNode)
+		if ok1 && ok2 && l1.Value() != l2.Value() {
+			rt.Fail("reapplication/value-differs", "the second application at the same offset decodes a different value")
+			return n, err
+		}
+	}
+	if err != nil && (err.Pos() != err2.Pos() || err.Error() != err2.Error()) {
+		rt.Fail("reapplication/error-differs", "")
+	}
 	return n, err
 }
 
